@@ -88,6 +88,18 @@ func check(c Case) error {
 			return vk.Errf("writing the same record twice gives different text (first difference at byte %d):\n--- first ---\n%s\n--- again ---\n%s", firstDiff(string(text), string(again)), around(string(text), firstDiff(string(text), string(again))), around(string(again), firstDiff(string(text), string(again))))
 		}
 	}
+	// the text handed back must stay what it is when other records are written afterwards
+	snapshot := string(text)
+	other := x
+	other.Meta.Locus.Name = "other" + x.Meta.Locus.Name
+	other.Meta.Definition = "another record " + x.Meta.Definition
+	other.Sequence = strings.Repeat("tgca", len(x.Sequence)/8)
+	other.Features = nil
+	_ = safely("Build", func() { genbank.Build(other); genbank.Build(other) })
+	if string(text) != snapshot {
+		i := firstDiff(string(text), snapshot)
+		return vk.Errf("the bytes returned by Build(x) changed when another record was built afterwards (first difference at byte %d of %d):\n--- as returned ---\n%s\n--- now ---\n%s", i, len(snapshot), around(snapshot, i), around(string(text), i))
+	}
 	// (1) Parse(Build(x)) == x
 	var y poly.Sequence
 	if err := safely("Parse(Build(x))", func() { y = genbank.Parse(text) }); err != nil {
